@@ -1,7 +1,7 @@
 #!/bin/bash
-# tools/seed_verify.sh <ID> <k>  - confirm a sub-agent mutation (/tmp/mut/<ID>/mut<k>.diff + demo<k>.py) and run the property's check on it.
+# tools/seed_verify.sh <ID> <k>  - confirm a sub-agent mutation (/tmp/mut2/<ID>/mut<k>.diff + demo<k>.py) and run the property's check on it.
 # Confirmed mutations are stored under /verif/seeded/<ID>-<k>/ (patch.diff, demo.py, meta.json). Scratch worktree is removed.
-ID=$1; K=$2; SRC=/tmp/mut/$ID
+ID=$1; K=$2; SRC=/tmp/mut2/$ID
 WT=/tmp/sv-$ID-$K
 [ -f $SRC/mut$K.diff ] || { echo "$ID-$K: no patch"; exit 2; }
 git -C /repo worktree add -q $WT HEAD || exit 3
@@ -16,18 +16,18 @@ CHECK=$( FV_JOBS=${FV_JOBS:-8} /verif/tools/mutcheck.sh $SRC/mut$K.diff $ID 2>&1
 CONF=no; [ $APPLY -eq 0 ] && [ $RC_CLEAN -eq 0 ] && [ $RC_MUT -ne 0 ] && echo "$SUITE" | grep -q "41 passed" && CONF=yes
 echo "$ID-$K confirmed=$CONF apply=$APPLY demo_clean=$RC_CLEAN demo_mut=$RC_MUT suite=[$SUITE] check=[$CHECK]"
 if [ $CONF = yes ]; then
-  D=/verif/seeded/$ID-$K; mkdir -p $D
+  D=/verif/seeded/$ID-${SEEDTAG:-}$K; mkdir -p $D
   cp $SRC/mut$K.diff $D/patch.diff; cp $SRC/demo$K.py $D/demo.py
-  /venv/bin/python - "$ID" "$K" "$RC_CLEAN" "$RC_MUT" "$SUITE" "$CHECK" <<'PY'
+  /venv/bin/python - "$ID" "$K" "$RC_CLEAN" "$RC_MUT" "$SUITE" "$CHECK" "${SEEDTAG:-}" <<'PY'
 import json,sys,re
-ID,K,rc,rm,suite,check=sys.argv[1:7]
-md=open(f"/tmp/mut/{ID}/MUTATIONS.md").read()
+ID,K,rc,rm,suite,check,tag=sys.argv[1:8]
+md=open(f"/tmp/mut2/{ID}/MUTATIONS.md").read()
 m=re.search(rf"{ID} rc=(\d+)",check)
 json.dump({"property":ID,"mutation":int(K),"source":"independent sub-agent given only the property text and a scratch worktree",
  "description_by_author":md[:6000],
  "confirmed":{"demo_exit_clean":int(rc),"demo_exit_mutated":int(rm),"test_suite_with_mutation":suite,
    "how":"tools/seed_verify.sh: fresh worktree of /repo HEAD, demo on clean tree, git apply patch, demo again, unedited test-suite"},
- "check_result":{"cmd":f"tools/mutcheck.sh seeded/{ID}-{K}/patch.diff {ID}","exit":int(m.group(1)) if m else None,"summary":check}},
- open(f"/verif/seeded/{ID}-{K}/meta.json","w"),indent=1)
+ "check_result":{"cmd":f"tools/mutcheck.sh seeded/{ID}-{tag}{K}/patch.diff {ID}","exit":int(m.group(1)) if m else None,"summary":check}},
+ open(f"/verif/seeded/{ID}-{tag}{K}/meta.json","w"),indent=1)
 PY
 fi
